@@ -71,6 +71,27 @@ type Destination struct {
 
 // New creates a destination object. Note that it still needs to be told to run via Run().
 func New(routeName string, matcher matcher.Matcher, addr, spoolDir string, spool, pickle bool, periodFlush, periodReConn time.Duration, connBufSize, ioBufSize, spoolBufSize int, spoolMaxBytesPerFile, spoolSyncEvery int64, spoolSyncPeriod, spoolSleep, unspoolSleep time.Duration) (*Destination, error) {
+	// all of these end up in tickers, buffers and the disk queue, which can't deal with nonsensical values
+	switch {
+	case periodFlush <= 0:
+		return nil, errors.New("flush interval must be > 0")
+	case periodReConn <= 0:
+		return nil, errors.New("reconnect interval must be > 0")
+	case connBufSize < 0:
+		return nil, errors.New("connection buffer size must be >= 0")
+	case ioBufSize <= 0:
+		return nil, errors.New("io buffer size must be > 0")
+	case spoolBufSize < 0:
+		return nil, errors.New("spool buffer size must be >= 0")
+	case spoolMaxBytesPerFile <= 0:
+		return nil, errors.New("spool max bytes per file must be > 0")
+	case spoolSyncEvery <= 0:
+		return nil, errors.New("spool sync every must be > 0")
+	case spoolSyncPeriod <= 0:
+		return nil, errors.New("spool sync period must be > 0")
+	case spoolSleep < 0 || unspoolSleep < 0:
+		return nil, errors.New("spool and unspool sleep must be >= 0")
+	}
 	key := util.Key(routeName, addr)
 	addr, instance := addrInstanceSplit(addr)
 	dest := &Destination{
